@@ -343,6 +343,12 @@ macro_rules! invert_native {
                         let e = (m * ni).rm().max_abs_diff(&RM::ident(n));
                         ensure!(e <= 1e-4, "M*N=I-native", "M * invert(M) differs from I by {:e}", e);
                     }
+                    // a subnormal determinant is tiny but not zero: here it is the exact power of two 2^total, every cofactor is an
+                    // exact float and so is every entry of the inverse (an integer times 2^-exponent of its row)
+                    if let (Some(ni), true) = (inv, class == 2 && det != 0.0) {
+                        let e = (m * ni).rm().max_abs_diff(&RM::ident(n)).max((ni * m).rm().max_abs_diff(&RM::ident(n)));
+                        ensure!(e <= 1e-4, "M*N=I-subnormal-determinant", "M * invert(M) / invert(M) * M differs from I by {:e} for a matrix whose determinant {:e} is subnormal but not zero (the inverse has finite entries): invert() = {:?}", e, det, ni);
+                    }
                     det
                 }};
             }
@@ -705,6 +711,102 @@ fn invert_scaled_f64(d: &mut Draw) -> Outcome {
     pass(match n { 2 => "2x2", 3 => "3x3", _ => "4x4" }, true)
 }
 
+/// native floats: the same covariance over the *whole* exponent range - rows and columns of a strongly diagonally dominant
+/// B scaled by powers of two so that entries, cofactors, determinant and inverse are all representable but far apart, and
+/// (3x3) so that one row is large while the complementary cofactors are subnormal: every quantity the statement needs
+/// exists as a float there, so invert() must return the scaled inverse of B - to the relative accuracy the subnormal
+/// cofactors carry - and not an infinity or a NaN out of some intermediate quotient
+macro_rules! invert_wide {
+    ($fname:ident, $F:ty, $lim:expr, $half:expr, $bottom:expr, $rel:expr, $sublo:expr, $subhi:expr, $tlo:expr, $thi:expr) => {
+        fn $fname(d: &mut Draw) -> Outcome {
+            type F = $F;
+            let n = d.int(2, 3) as usize;
+            let b = RM::<F>::from_fn(n, |c, r| if c == r { d.f64_slog(1.0, 4.0) as F } else if d.chance(1, 3) { 0.0 } else { d.f64_in(-0.3, 0.3) as F });
+            let two = |e: i32| -> F { (2.0 as F).powi(e / 2) * (2.0 as F).powi(e - e / 2) };
+            let (mut er, mut ec) = (vec![0i32; n], vec![0i32; n]);
+            let subnormal = n == 3 && d.bool();
+            if subnormal {
+                // one large row (or column), the other two tiny: the cofactors complementary to the large entries are subnormal
+                let t = d.int($tlo, $thi) as i32;
+                let cof = -(d.int($sublo, $subhi) as i32);
+                let a = t - cof;
+                let rest = cof;
+                let delta = d.int(-8, 8) as i32;
+                let big = d.below(3);
+                let mut e = vec![0i32; 3];
+                e[big] = a;
+                e[(big + 1) % 3] = rest / 2 + delta;
+                e[(big + 2) % 3] = rest - rest / 2 - delta;
+                if d.bool() { er = e } else { ec = e }
+            } else {
+                for i in 0..n {
+                    er[i] = d.int(-$half, $half) as i32;
+                    ec[i] = d.int(-$half, $half) as i32;
+                }
+                // entries, cofactors, determinant and inverse all within 2^+-lim: halve the exponents until they are
+                loop {
+                    let t: i32 = er.iter().sum::<i32>() + ec.iter().sum::<i32>();
+                    let mut worst = t.abs();
+                    for r in 0..n {
+                        for c in 0..n {
+                            worst = worst.max((er[r] + ec[c]).abs()).max((t - er[r] - ec[c]).abs());
+                        }
+                    }
+                    if worst <= $lim {
+                        break;
+                    }
+                    for i in 0..n {
+                        er[i] /= 2;
+                        ec[i] /= 2;
+                    }
+                }
+            }
+            let t: i32 = er.iter().sum::<i32>() + ec.iter().sum::<i32>();
+            let m = RM::<F>::from_fn(n, |c, r| b.e[c][r] * two(er[r] + ec[c]));
+            d.note("B", &b);
+            d.note("row exponents, column exponents", &(er.clone(), ec.clone()));
+            // relative accuracy left in the smallest cofactor (1 when it is a normal number)
+            let mut mincof = i32::MAX;
+            for r in 0..n {
+                for c in 0..n {
+                    mincof = mincof.min(t - er[r] - ec[c]);
+                }
+            }
+            let quantum: F = if n == 3 { two(($bottom - mincof).min(0)) * 1024.0 } else { 0.0 };
+            let tolr: F = $rel + quantum;
+            macro_rules! go {
+                ($mk:ident) => {{
+                    let (ib, im) = ($mk(&b).invert(), $mk(&m).invert());
+                    ensure!(ib.is_some() && im.is_some(), "wide-inverse-presence", "invert() is {} for B and {} for D1 B D2 (both determinants are non-zero normal numbers)", if ib.is_some() { "Some" } else { "None" }, if im.is_some() { "Some" } else { "None" });
+                    let (ib, im) = (ib.unwrap().rm(), im.unwrap().rm());
+                    let e = ($mk(&b) * $mk(&ib)).rm().max_abs_diff(&RM::ident(n));
+                    ensure!(e <= $rel, "wide-inverse-base", "B * invert(B) differs from I by {:e} for a diagonally dominant B", e);
+                    for c in 0..n {
+                        for r in 0..n {
+                            let unit = two(-(ec[r] + er[c]));
+                            let want = ib.e[c][r] * unit;
+                            ensure!(im.e[c][r].is_finite() && (im.e[c][r] - want).abs() <= tolr * (want.abs() + unit), "wide-inverse",
+                                "invert(D1 B D2)[{}][{}] = {:e}, the scaled entry of invert(B) is {:e} (relative tolerance {:e})", c, r, im.e[c][r], want, tolr);
+                        }
+                    }
+                    let (db, dm) = ($mk(&b).determinant(), $mk(&m).determinant());
+                    let want = db * two(t);
+                    ensure!(dm.is_finite() && (dm - want).abs() <= tolr * want.abs(), "wide-determinant", "determinant(D1 B D2) = {:e}, scaled determinant of B = {:e}", dm, want);
+                }};
+            }
+            match n {
+                2 => go!(mk_m2),
+                _ => go!(mk_m3),
+            }
+            pass(if subnormal { "3x3-subnormal-cofactors" } else if n == 2 { "2x2-wide" } else { "3x3-wide" }, true)
+        }
+    };
+}
+// f64: exponents up to +-1000; subnormal cofactors 2^-1045 .. 2^-1026 under a determinant 2^-1000 .. 2^-700
+invert_wide!(invert_wide_f64, f64, 1000, 330, -1074, 1e-12, 1026, 1045, -1000, -700);
+// f32: exponents up to +-110; subnormal cofactors 2^-133 .. 2^-129 under a determinant 2^-120 .. 2^-95
+invert_wide!(invert_wide_f32, f32, 110, 36, -149, 3e-4, 129, 133, -120, -95);
+
 const RULE_INV: &str = "dense invertible (all entries and all first minors non-zero), or one of the constructed singular / low-rank / tiny-determinant classes";
 const RULE_D: &str = "all entries of A and B non-zero and det A != 0";
 const RULE_T: &str = "all entries non-zero, neither operand symmetric";
@@ -752,6 +854,9 @@ pub fn property() -> Property {
     s.push(sc!("illconditioned_native-f32", "f32", illconditioned_native_f32, 4000, 300_000, 32, ILL, "every generated matrix (permuted direct sums of [[a,a-1],[a+1,a]] and ones)", false));
     s.push(sc!("transpose_native-f64", "f64", transpose_native_f64, 4000, 300_000, 96, &[("symmetric", 100), ("symmetric-up-to-sign-of-zero", 100), ("symmetric-up-to-an-ulp", 100), ("tiny", 100), ("generic-with-signed-zeros", 100)], "every generated matrix", false));
     s.push(sc!("invert_scaled-f64", "f64", invert_scaled_f64, 4000, 300_000, 64, ILL, "every generated matrix (a diagonally dominant B with rows and columns scaled by 2^-60..2^60)", false));
+    const WIDE: &[(&str, u32)] = &[("2x2-wide", 150), ("3x3-wide", 100), ("3x3-subnormal-cofactors", 100)];
+    s.push(sc!("invert_wide-f64", "f64", invert_wide_f64, 4000, 300_000, 64, WIDE, "every generated matrix (a strongly diagonally dominant B with rows and columns scaled by powers of two over the whole exponent range)", false));
+    s.push(sc!("invert_wide-f32", "f32", invert_wide_f32, 4000, 300_000, 64, WIDE, "every generated matrix (a strongly diagonally dominant B with rows and columns scaled by powers of two over the whole exponent range)", false));
     s.push(sc!("invert_near_special-f64", "f64", invert_near_special_f64, 6000, 400_000, 80, &[("near-rotation", 300), ("near-diagonal", 100)], "every generated matrix (a rotation or diagonal matrix with 1-3 entries or the overall scale off by 1e-14..1e-4)", false));
     Property {
         id: "C02",
